@@ -177,7 +177,16 @@ impl Prop for C01 {
         let mut cfg = MCfg::wild();
         // Binomial under scripted extreme words is the subject of C13 (known finding there).
         cfg.allow_binomial = !scripted;
-        let mut machines = gen_machines(&mut r, &cfg, 0, 5);
+        let mut machines = if r.chance(1, 40) {
+            // many machines in one framework: per-machine state must not be packed into fixed-width words
+            let mut small = cfg.clone();
+            small.max_states = 3;
+            let n = *r.pick(&[31usize, 32, 33, 34, 63, 64, 65, 70, 129, 257]);
+            out.bump("cases_with_31_to_257_machines");
+            (0..n).map(|_| crate::gen::gen_machine(&mut r, &small)).collect()
+        } else {
+            gen_machines(&mut r, &cfg, 0, 5)
+        };
         // start / max of a distribution are not constrained by validation
         if r.chance(1, 4) {
             let mut twisted = 0;
